@@ -410,7 +410,7 @@ impl Lowerer<'_, '_> {
     }
 
     /// Returns the clone function of a registered type
-    fn get_runtime_clone(&self, ty: TyRef) -> Option<CloneFn> {
+    pub(super) fn get_runtime_clone(&self, ty: TyRef) -> Option<CloneFn> {
         let ty = self.ctx.type_info.ty_pool.get(ty);
         let id = match ty {
             Ty::Runtime(id) => Some(*id),
